@@ -114,11 +114,24 @@ def gen_op(rng, spec, guarded=True):
         # edits of objects that are not part of the system are not edits of the system
         if op["op"] != "group" and op["name"] not in reach:
             continue
+        if op["op"] == "group" and any(c["name"] not in reach for c in op["changes"]):
+            continue
         return op
     return None
 
 
 def gen_op_once(rng, spec, guarded, shared):
+    if rng.random() < 0.2:
+        # several inputs changed in one update (grouped ModelingUpdate)
+        kinds = ["servers", "storages", "networks", "devices"] if (guarded and shared) else None
+        changes, seen = [], set()
+        for _ in range(rng.choice([2, 2, 3])):
+            c = history.gen_numeric_edit(rng, spec, kinds=kinds) if (rng.random() < 0.8 or (guarded and shared)) else history.gen_hourly_edit(rng, spec)
+            if c and (c["name"], c.get("param", "hourly")) not in seen:
+                seen.add((c["name"], c.get("param", "hourly")))
+                changes.append(c)
+        if len(changes) >= 2:
+            return {"op": "group", "changes": changes}
     for _ in range(30):
         r = rng.random()
         if guarded and shared:
@@ -285,17 +298,35 @@ def kgraph_shard(args):
                             break
         except Exception:  # noqa
             continue
+        if any(l[1] == "err" for l in live.log):
+            continue        # a refused edit: the state afterwards is the subject of C14 / C15, not of this suite
         nodes = graphx.export(live.rs)
         issues = graphx.check_graph(nodes)
         if issues:
             out["graph_issues"].append({"spec": spec, "ops": [l[0] for l in live.log], "issues": issues[:3]})
         starts = [nd for nd in nodes if nd["live"] and not nd["calc"] and nd["chi"]]
         reals = [graphx.real_chain(nd) for nd in starts]
-        reqs.append({"cmd": "chain", "g": graphx.to_lean(nodes), "starts": [nd["uid"] for nd in starts]})
-        meta.append((spec, [l[0] for l in live.log], nodes, starts, reals, history.has_shared_job(live.spec)))
+        # grouped updates: the chains of several changed inputs concatenated and optimised by the real code
+        groups, greals = [], []
+        ok_idx = [k for k, r in enumerate(reals) if isinstance(r, list)]
+        for _ in range(min(6, len(ok_idx))):
+            grp = rng.sample(ok_idx, min(len(ok_idx), rng.choice([2, 2, 3])))
+            try:
+                from efootprint.abstract_modeling_classes.explainable_object_base_class import optimize_attr_updates_chain
+                from efootprint.abstract_modeling_classes.explainable_object_dict import ExplainableObjectDict
+                with watchdog(20):
+                    allc = sum([starts[k]["obj"].attr_updates_chain for k in grp], start=[])
+                    opt = optimize_attr_updates_chain(allc)
+                    greals.append([(c.id, isinstance(c, ExplainableObjectDict)) for c in opt])
+                    groups.append(grp)
+            except Exception:  # noqa
+                pass
+        reqs.append({"cmd": "chain", "g": graphx.to_lean(nodes), "starts": [nd["uid"] for nd in starts],
+                     "groups": [[starts[k]["uid"] for k in grp] for grp in groups]})
+        meta.append((spec, [l[0] for l in live.log], nodes, starts, reals, history.has_shared_job(live.spec), groups, greals))
         out["cases"] += 1
     answers = run_lean(reqs) if reqs else []
-    for (spec, ops, nodes, starts, reals, shared), ans in zip(meta, answers):
+    for (spec, ops, nodes, starts, reals, shared, groups, greals), ans in zip(meta, answers):
         if "bad" in ans:
             out["disagreements"].append({"why": "driver: " + ans["bad"], "spec": spec})
             continue
@@ -320,8 +351,24 @@ def kgraph_shard(args):
                     out["rejected_shared"] += 1
                 else:
                     out["rejected_guarded"].append({"why": f"verified checker rejects the update order of {nd['sname']}", "spec": spec, "ops": ops})
+        for grp, gr, ga in zip(groups, greals, ans.get("groups", [])):
+            out["starts"] += 1
+            names = "+".join(starts[k]["sname"] for k in grp)
+            if ga == "hang":
+                out["disagreements"].append({"why": f"grouped {names}: port exhausts fuel, real returns", "spec": spec, "ops": ops})
+                continue
+            lean_chain = [(sidname[c[0]], bool(c[1])) for c in ga["chain"]]
+            if lean_chain != [tuple(x) for x in gr]:
+                out["disagreements"].append({"why": f"grouped update {names}: optimised chain differs (port {len(lean_chain)} elements, real {len(gr)}; first difference at "
+                                                    f"{next((i for i, (x, y) in enumerate(zip(lean_chain, gr)) if tuple(x) != tuple(y)), min(len(lean_chain), len(gr)))})",
+                                             "spec": spec, "ops": ops})
+            if not ga["ok"]:
+                if shared:
+                    out["rejected_shared"] += 1
+                else:
+                    out["rejected_guarded"].append({"why": f"verified checker rejects the update order of the grouped update {names}", "spec": spec, "ops": ops})
         if len(out["samples"]) < 1:
-            out["samples"].append({"nodes": len(nodes), "start_nodes": len(starts), "ops": [op_label(o) for o in ops]})
+            out["samples"].append({"nodes": len(nodes), "start_nodes": len(starts), "grouped": len(groups), "ops": [op_label(o) for o in ops]})
     return out
 
 
@@ -385,10 +432,16 @@ def fixed_point_shard(args):
                 _ = (s.total_energy_footprint_sum_over_period, s.total_fabrication_footprint_sum_over_period,
                      s.energy_footprint_sum_over_period, s.fabrication_footprint_sum_over_period)
                 actions += ["explain", "to_json", "aggregates"]
-                # explicit recomputation requests, any subset, any order
+                # explicit recomputation requests, any subset, any order: whole objects …
                 for n_ in subset:
                     live.rs.objs[n_].compute_calculated_attributes()
                     actions.append("compute:" + n_)
+                # … and single attributes (the granularity at which edits recompute)
+                pairs = [(n_, a) for n_ in names for a in live.rs.objs[n_].calculated_attributes]
+                rng.shuffle(pairs)
+                for n_, a in pairs[: rng.randint(1, 6)]:
+                    getattr(live.rs.objs[n_], f"update_{a}")()
+                    actions.append(f"update:{n_}.{a}")
                 if rng.random() < 0.5:
                     live.rs.system.compute_calculated_attributes()
                     actions.append("compute:system")
